@@ -567,6 +567,10 @@ func checkSensorReaders(c *Ctx, r *Report) {
 		}
 	}
 
+	// a reading is never a stale one: every error-free SendCommand decoded the reply's body into
+	// the response layer Read then looks at (rule shared with C17, C07)
+	checkResponseAlwaysDecoded(c, r)
+
 	// Read methods
 	r.Rule("read-flags", "Read converts the raw byte only after ReadingUnavailable tested false (else the reading-unavailable sentinel) and then ScanningEnabled tested true (else the scanning-disabled sentinel); the raw byte goes through the record's parser and factors; the linearised reader applies its lineariser to the linear result", 4)
 	// the two reader types are whatever implements SensorReader: the linearised one is the
@@ -611,6 +615,8 @@ func checkSensorReaders(c *Ctx, r *Report) {
 		at   int
 	}
 	okUnavail, okScan, okGuard, okOrder, okSendFirst := true, true, true, true, true
+	okOnlyU, okOnlyS := true, true
+	var posOnly token.Pos
 	nUnavail, nScan, nConv := 0, 0, 0
 	var posU, posS token.Pos
 	sentinelNamed := func(p CPath, v ssa.Value, name string) bool {
@@ -684,6 +690,32 @@ func checkSensorReaders(c *Ctx, r *Report) {
 				sawScanTrue = true
 			}
 		}
+		// "exactly when the BMC sets those flags": a flag sentinel is returned on no other path
+		// (not for a failed exchange, a short reply, a non-normal completion code)
+		if sentinelNamed(p, ret.Results[1], "ErrSensorReadingUnavailable") {
+			has := false
+			for _, f := range facts {
+				if f.flag == "unavailable" && f.val {
+					has = true
+				}
+			}
+			if !has {
+				okOnlyU = false
+				posOnly = ret.Pos()
+			}
+		}
+		if sentinelNamed(p, ret.Results[1], "ErrSensorScanningDisabled") {
+			has := false
+			for _, f := range facts {
+				if f.flag == "scanning" && !f.val {
+					has = true
+				}
+			}
+			if !has {
+				okOnlyS = false
+				posOnly = ret.Pos()
+			}
+		}
 		if convAt >= 0 {
 			nConv++
 			if !(sawUnavailFalse && sawScanTrue) {
@@ -701,6 +733,7 @@ func checkSensorReaders(c *Ctx, r *Report) {
 	} else {
 		r.Check(okUnavail, lname+"|unavailable → sentinel", posU, "ErrSensorReadingUnavailable exactly when the flag is set", "the reading-unavailable flag does not produce ErrSensorReadingUnavailable")
 		r.Check(okScan, lname+"|scanning disabled → sentinel", posS, "ErrSensorScanningDisabled exactly when scanning is off", "a cleared scanning-enabled flag does not produce ErrSensorScanningDisabled")
+		r.Check(okOnlyU && okOnlyS, lname+"|sentinels only for flags", posOnly, "the two flag sentinels are returned only on paths that read the corresponding flag in the decoded response", fmt.Sprintf("a flag sentinel is returned on a path that did not find the flag in the response (reading-unavailable only for its flag: %v, scanning-disabled only for its flag: %v): a failed or truncated exchange is reported as a statement by the BMC", okOnlyU, okOnlyS))
 		r.Check(okGuard && okOrder && okSendFirst, lname+"|conversion guarded", conv.Pos(), "conversion only when available and scanning, after the command", fmt.Sprintf("conversion reachable with flags-guarded=%v unavailable-first=%v after-command=%v", okGuard, okOrder, okSendFirst))
 		// data flow: ConvertReading(parser.Parse(Rsp.Reading)) with factors of the reader
 		okFlow := false
